@@ -1,0 +1,15 @@
+//go:build verif
+
+// Contracts for the deductive verification in /verif (comment-only).
+package goat
+
+// EndBlock is Finalized: any engine error or INVALID answer is returned, which aborts FinalizeBlock.
+//@ func (AppModule).EndBlock
+//@ property C09
+//@ ensures has_head: err == nil ==> has(st.goat.Block)
+//@ ensures new_payload: err == nil ==> engNPerr(0, edOf(st.goat.Block), bytesToHash(st.goat.Block.BeaconRoot), st.goat.Block.Requests) == 0
+//@           && !engNPinvalid(0, edOf(st.goat.Block), bytesToHash(st.goat.Block.BeaconRoot), st.goat.Block.Requests)
+//@ ensures forkchoice: err == nil ==> engFCUerr(1, bytesToHash(st.goat.Block.BlockHash), bytesToHash(st.goat.Block.ParentHash), bytesToHash(st.goat.Block.ParentHash), true, 0) == 0
+//@           && !engFCUinvalid(1, bytesToHash(st.goat.Block.BlockHash), bytesToHash(st.goat.Block.ParentHash), bytesToHash(st.goat.Block.ParentHash), true, 0)
+//@ modifies nothing
+//@ nopanic
